@@ -19,10 +19,10 @@ import (
 type Flags uint
 
 const (
-	RoundTrip Flags = 1 << iota // library reader returns exactly the records (C01)
-	Valid                       // reference validator accepts the file (C02)
-	Striping                    // columns are the Dremel striping; reference assembly returns the records (C03)
-	NoScramble                  // do not mutate records after Add
+	RoundTrip  Flags = 1 << iota // library reader returns exactly the records (C01)
+	Valid                        // reference validator accepts the file (C02)
+	Striping                     // columns are the Dremel striping; reference assembly returns the records (C03)
+	NoScramble                   // do not mutate records after Add
 )
 
 // Failure is one oracle complaint.
@@ -246,6 +246,14 @@ func panicSite(msg string) string {
 	if len(head) > 100 {
 		head = head[:100]
 	}
+	// index values and lengths vary with the input: keep the kind of panic only
+	hb := []byte(head)
+	for i, ch := range hb {
+		if ch >= '0' && ch <= '9' {
+			hb[i] = '#'
+		}
+	}
+	head = string(hb)
 	for _, l := range lines[1:] {
 		l = strings.TrimSpace(l)
 		if strings.HasPrefix(l, "/") && !strings.Contains(l, "/runtime/") && !strings.Contains(l, "/fw/") && !strings.Contains(l, "go/src/") {
@@ -257,6 +265,9 @@ func panicSite(msg string) string {
 				l = l[i:]
 			}
 			// drop line numbers of generated code (they shift with templates)
+			if i := strings.LastIndexByte(l, ':'); i > 0 && strings.Contains(l, "/gen/") {
+				l = l[:i]
+			}
 			return head + " @ " + l
 		}
 	}
